@@ -98,6 +98,13 @@ func sched(x *vsync.Exec) []int {
 func explore(sc scenario, mode string, k int, capExec int64, progress func()) *vlib.Outcome {
 	o := &vlib.Outcome{Nontrivial: true, Counters: map[string]int64{}}
 	serial := serialResults(sc, mode)
+	for r := range serial {
+		if strings.Contains(r, "ERR ") && !strings.Contains(sc.name, "RegisterString") {
+			// vacuity guard: a scenario whose calls fail even serially explores nothing useful
+			o.Counters["scenarios_failing_serially"]++
+			break
+		}
+	}
 	hot := map[string]bool{}
 	outcomes := map[string]bool{}
 	var capped bool
@@ -192,6 +199,9 @@ func explore(sc scenario, mode string, k int, capExec int64, progress func()) *v
 			break
 		}
 		o.Counters["hot_field_restarts"]++
+	}
+	if os.Getenv("C02_DEBUG") != "" {
+		fmt.Fprintf(os.Stderr, "DEBUG %s [%s] k=%d execs=%d steps=%d outcomes=%v\n", sc.name, mode, k, execs, steps, outcomes)
 	}
 	o.Counters["executions"] += execs
 	o.Counters["choice_tree_nodes"] += nodes
